@@ -37,7 +37,7 @@ def first_dev_kind(req):
 def c03(req, obs):
     out = []
     meta = req.get("meta", {})
-    variant = "pair=%s|kp_reuse=%s" % (meta.get("pair", "none"), meta.get("kp_reuse", False))
+    variant = "pair=%s|kp_reuse=%s%s" % (meta.get("pair", "none"), meta.get("kp_reuse", False), meta.get("variant_suffix", ""))
     before = None
     for ph in obs.get("phases", []):
         for p in ph.get("pre", []):
